@@ -184,6 +184,7 @@ class Lite:
         self.max_depth = max_depth
         self.depth = 0
         self.stack: List[str] = []
+        self._mro: Dict[int, List[ClassInfo]] = {}
         self.func_stubs: Dict[str, Callable] = {}      # FuncInfo.key -> python callable(interp, args, kwargs)
         self.warnings: List[str] = []
         self._modcache: Dict[Tuple[str, str], Any] = {}
@@ -306,6 +307,10 @@ class Lite:
                     return PyStub(lambda t, v: v, "typing.cast")
                 if imp[0] == "symbol" and imp[1] in ("typing", "typing_extensions"):
                     return PyStub(lambda *a, **k: None, "typing." + imp[2])
+            if (imp is not None and name not in m.classes and name not in m.functions and name not in m.assigns):
+                via = self._follow_import(m, imp, 0)
+                if via is not None:
+                    return via
             r = self.ix.resolve(m, name)
             if r is None:
                 raise Unsupported(f"external name `{name}` in {m.relpath}")
@@ -319,9 +324,52 @@ class Lite:
             return _PY_EXC[name]
         raise UnknownName(f"name `{name}` in {m.relpath}")
 
+    def _follow_import(self, m: Module, imp, depth: int):
+        """follow `from X import y [as z]` chains; `from . import x` written inside package code names the sibling
+        module x even when the package's __init__ later re-exports an object called x"""
+        if depth > 8 or imp[0] != "symbol":
+            return None
+        _, modname, sym = imp
+        subm = self.ix.modules.get(modname + "." + sym)
+        if subm is not None and modname == m.package:
+            return ModVal(subm)
+        src = self.ix.modules.get(modname)
+        if src is None:
+            return None
+        if sym in src.classes or sym in src.functions or sym in src.assigns:
+            return None          # plain definition: the index resolves it
+        nxt = src.imports.get(sym)
+        if nxt is not None:
+            return self._follow_import(src, nxt, depth + 1)
+        if subm is not None:
+            return ModVal(subm)
+        return None
+
     # ------------------------------------------------------------------ class helpers
     def mro(self, c: ClassInfo) -> List[ClassInfo]:
-        return self.ix.mro(c)
+        """C3 linearisation from ClassInfo.bases with a cache of its own.  (Index.mro memoizes two classes --
+        sql/sqltypes.py::String and ::_AbstractInterval -- while their bases are still unresolved, see
+        notes/na-c.md; the interpreter therefore never uses the index's memo.)"""
+        k = id(c)
+        hit = self._mro.get(k)
+        if hit is not None:
+            return hit
+        bases = [b for b in c.bases if b is not None]
+        seqs = [list(self.mro(b)) for b in bases] + [list(bases)]
+        out = [c]
+        seqs = [s for s in seqs if s]
+        while seqs:
+            for s in seqs:
+                cand = s[0]
+                if not any(any(x is cand for x in t[1:]) for t in seqs):
+                    break
+            else:
+                cand = seqs[0][0]
+            out.append(cand)
+            seqs = [[x for x in s if x is not cand] for s in seqs]
+            seqs = [s for s in seqs if s]
+        self._mro[k] = out
+        return out
 
     def is_subclass(self, c: ClassInfo, base: ClassInfo) -> bool:
         return any(x is base for x in self.mro(c))
